@@ -177,6 +177,17 @@ class Parser:
         # todo: not sure how to workaround ',' normal way
         if "input.regex" in data:
             data = self.process_regex_input(data)
+        # typographic quotes are quotes and tabs are separators: normalise both before
+        # the quote-aware spacing below, whose look-ahead would take the escaped
+        # "\\t" in front of a literal for the inside of that literal
+        data = (
+            data.replace("‘", "'")
+            .replace("’", "'")
+            .replace("\\u2018", "'")
+            .replace("\\u2019", "'")
+            .replace("'\\t'", "'pars_m_t'")
+            .replace("\\t", " ")
+        )
         quote_before = r"((?!\'[\w]*[\\']*[\w]*)"
         quote_after = r"((?![\w]*[\\']*[\w]*\')))"
         num = 0
@@ -196,15 +207,7 @@ class Parser:
 
         if data.count("'") % 2 != 0:
             data = data.replace("\\'", "pars_m_single")
-        data = (
-            data.replace("\\x", "\\0")
-            .replace("‘", "'")
-            .replace("’", "'")
-            .replace("\\u2018", "'")
-            .replace("\\u2019", "'")
-            .replace("'\\t'", "'pars_m_t'")
-            .replace("\\t", " ")
-        )
+        data = data.replace("\\x", "\\0")
         return data
 
     def process_set(self) -> None:
